@@ -1,5 +1,6 @@
 import Pyunicorn.Model.Proto
 import Pyunicorn.Model.Similarity
+import Pyunicorn.Model.SimilarityHilbert
 /-! Line-protocol driver for C09.
 
 Requests (`S`, `damp` row-major rational matrices):
@@ -11,6 +12,10 @@ Requests (`S`, `damp` row-major rational matrices):
 * `hist <N> <directed> <nl> <S0> <damp> <init> <op,…> [<S1>@<S2>…]` with `init`/ops `T:<θ>`,
   `D:<ρ>` (exact rational value of the double), `L:<0|1>`, `R:<k>` (regenerate with the k-th
   extra matrix) → one state per op (init included) `θ|A|n_links|density`, separated by `;`
+* `hhist <N> <directed> <nl> <S0> <P0> <damp> <init> <op,…> [<M0>@<M1>…]`: the same for
+  `HilbertClimateNetwork` (`P0` = phase matrix; additional op `X:<d>:<kS>:<kP>` =
+  `set_directed(d)` with the coherence / phase matrices the object stores afterwards) →
+  states `θ|A|n_links|density|directed`
 -/
 open Pyunicorn Pyunicorn.Proto Pyunicorn.Similarity
 
@@ -40,6 +45,35 @@ def trace (s : Net) : List Op → List String
     | some s' =>
       -- the adjacency setter raises before the object is usable
       if s'.density.isNone then ["raise:ZeroDivision"] else showState s' :: trace s' os
+
+def showHState (h : HNet) : String :=
+  s!"{showState h.net}|{if h.net.directed then 1 else 0}"
+
+def parseHOp (N : Nat) (mats : List Sim) (tok : String) : Option HOp :=
+  match tok.splitOn ":" with
+  | ["T", v] => (rat? v).map HOp.thr
+  | ["D", v] => (rat? v).map fun ρ => HOp.dens (ieeeIndex ρ (N * N - N))
+  | ["L", v] => v.toNat?.map fun b => HOp.nl (b != 0)
+  | ["X", d, ks, kp] =>
+    match d.toNat?, ks.toNat?.bind (mats[·]?), kp.toNat?.bind (mats[·]?) with
+    | some dv, some S1, some P1 => some (HOp.dir (dv != 0) S1 P1)
+    | _, _, _ => none
+  | _ => none
+
+def htrace (h : HNet) : List HOp → List String
+  | [] => []
+  | o :: os =>
+    match h.step o with
+    | none => ["raise:IndexError"]
+    | some h' =>
+      if h'.net.density.isNone then ["raise:ZeroDivision"] else showHState h' :: htrace h' os
+
+/-- the constructor of `HilbertClimateNetwork` as an initial op -/
+def hinit (N : Nat) (d nl : Bool) (S0 P0 damp : Sim) (tok : String) : Option (Option HNet) :=
+  match tok.splitOn ":" with
+  | ["T", v] => (rat? v).map fun θ => some (mkHilbert N d S0 P0 damp nl θ)
+  | ["D", v] => (rat? v).map fun ρ => mkHilbertDensity N d S0 P0 damp nl (ieeeIndex ρ (N * N - N))
+  | _ => none
 
 def answer (toks : List String) : String :=
   match toks with
@@ -72,6 +106,18 @@ def answer (toks : List String) : String :=
     match ((splitTok init ",") ++ (splitTok ops ",")).mapM (parseOp N mats) with
     | none => "bad-request"
     | some os => join (trace b os) ";"
+  | "hhist" :: n :: d :: nl :: s0 :: p0 :: dm :: init :: ops :: rest =>
+    let N := n.toNat!
+    let mats := match rest with
+      | [m] => (splitTok m "@").map fun t => matFn (ratMat t)
+      | _ => []
+    match hinit N (d != "0") (nl != "0") (matFn (ratMat s0)) (matFn (ratMat p0))
+        (matFn (ratMat dm)) init, (splitTok ops ",").mapM (parseHOp N mats) with
+    | some none, _ => "raise:IndexError"
+    | some (some h), some os =>
+      if h.net.density.isNone then "raise:ZeroDivision"
+      else join (showHState h :: htrace h os) ";"
+    | _, _ => "bad-request"
   | _ => "bad-request"
 
 def main : IO Unit := runDriver answer
